@@ -383,6 +383,9 @@ fn contains_number(text: &str, n: usize) -> bool {
     false
 }
 
+/// pads from here on are *aimed*: resolved at execution against the client's free buffer space
+pub const AIM_PAD: usize = 1 << 40;
+
 pub fn app_response(version: u8, tag: &str, code: u16, pad: usize) -> (Response, Vec<u8>) {
     let mut body = format!("<{}>", tag).into_bytes();
     body.extend(std::iter::repeat(b'x').take(pad));
@@ -1063,6 +1066,10 @@ impl ServerSim {
             micro_http::Version::Http10 => 0,
             micro_http::Version::Http11 => 1,
         };
+        // an *aimed* size (pad >= AIM_PAD): the response is sized against the space that is free in
+        // its client's socket buffer right now - it fills it exactly, misses by one byte either way,
+        // or its head alone fills it - so that "written completely" and "short write" coincide
+        let pad = if pad >= AIM_PAD { self.resolve_aimed_pad(cid, version, &tag, code, pad - AIM_PAD, st) } else { pad };
         // the application is free to answer in another HTTP version than the request's
         let version = if pad % 5 == 4 { 1 - version } else { version };
         let (resp, bytes) = app_response(version, &tag, code, pad);
@@ -1093,6 +1100,55 @@ impl ServerSim {
             cl.expected_out.extend(bytes);
         }
         Ok(())
+    }
+
+    /// pad for which the serialised response relates to the free space of the client's socket buffer
+    /// (minus output already queued for it) as `kind` says: 0 exactly as long, 1 one byte longer,
+    /// 2 one byte shorter, 3 the head alone exactly as long. Falls back to a small pad when the space
+    /// is smaller than the smallest response. A function of the simulated state only, so it replays.
+    fn resolve_aimed_pad(&mut self, cid: usize, version: u8, tag: &str, code: u16, kind: usize, st: &mut Stats) -> usize {
+        let (free, owed) = match self.clients.get(&cid) {
+            Some(cl) if cl.accept == Accept::Served && !cl.closed => {
+                let written = world::with(|w| w.conns[cl.conn].srv_written) as usize;
+                (world::with(|w| w.s2c_free(cl.conn)), cl.expected_out.len().saturating_sub(written))
+            }
+            _ => return kind,
+        };
+        let space = free.saturating_sub(owed);
+        let len_of = |p: usize| app_response(version, tag, code, p).1.len();
+        if kind == 3 {
+            // the head alone fills the space: head length is changed through the 300-byte Server string
+            // (pad % 8 == 5) or left alone; pick the pad in 0..64 whose head is closest from below and
+            // report whether it was hit exactly
+            let head_of = |p: usize| {
+                let b = app_response(version, tag, code, p).1;
+                b.windows(4).position(|w| w == b"\r\n\r\n").map(|x| x + 4).unwrap_or(b.len())
+            };
+            for p in 0..64usize {
+                if head_of(p) == space {
+                    st.probe("response_head_fills_client_buffer_exactly");
+                    return p;
+                }
+            }
+            return kind;
+        }
+        let target = match kind {
+            0 => space,
+            1 => space + 1,
+            _ => space.saturating_sub(1),
+        };
+        let base = len_of(0);
+        if target < base || target > 200_000 {
+            return kind;
+        }
+        let est = target - base;
+        for p in est.saturating_sub(12)..=est + 2 {
+            if p % 8 < 5 && len_of(p) == target {
+                st.probe("response_sized_against_free_buffer_space");
+                return p;
+            }
+        }
+        est
     }
 
     /// answer everything outstanding with ONE call of the batch API, in yield order
